@@ -335,6 +335,52 @@ def dense_cases(ctx):
     return out
 
 
+def exact_tie_cases():
+    """A vertex at distance *exactly* the tolerance from a chord of whole-number length 1..30
+    (axis-parallel, and along 3:4 / 5:12 directions where the perpendicular offset is whole too),
+    its foot strictly inside the chord: "closer than the tolerance" is strict, so it stays - an
+    evaluation that multiplies by a rounded reciprocal of the squared length (49, 98, 196 ...)
+    comes out one unit in the last place short.  Returns (points, tol) pairs."""
+    out = []
+    chords = [((a, 0), (0, 1)) for a in range(1, 31)] + [((0, a), (1, 0)) for a in range(1, 31)]
+    for k in (1, 2, 3, 4, 7):
+        chords += [((3 * k, 4 * k), (-4, 3)), ((4 * k, 3 * k), (3, -4)), ((-3 * k, 4 * k), (4, 3))]
+    for k in (1, 2):
+        chords += [((5 * k, 12 * k), (-12, 5)), ((12 * k, -5 * k), (5, 12))]
+    for (d_x, d_y), (n_x, n_y) in chords:
+        norm2 = n_x * n_x + n_y * n_y           # 1, 25 or 169: the offset n has length 1, 5, 13
+        unit = {1: 1, 25: 5, 169: 13}[norm2]
+        steps = max(abs(d_x), abs(d_y))
+        feet = sorted({(d_x * j // steps, d_y * j // steps) for j in range(1, steps)
+                       if (d_x * j) % steps == 0 and (d_y * j) % steps == 0})
+        for foot in feet[:: max(1, len(feet) // 4)]:
+            for mult in (1, 2):
+                vertex = (foot[0] + mult * n_x, foot[1] + mult * n_y)
+                tol = mult * unit
+                out.append((((0, 0), vertex, (d_x, d_y)), tol))
+                out.append((((0, 0), vertex, (d_x, d_y), (d_x + 3, d_y + 9)), tol))
+                out.append((((5, -7), (0, 0), vertex, (d_x, d_y)), tol))
+    return out
+
+
+def _tie_chunk(cases):
+    part = core.Part()
+    for points, tol in cases:
+        part.count("exact_tie_cases")
+        if len(points) == 3:
+            bad, _tie = check_predicate(points, tol)
+            part.count("predicate_cases")
+            for clause, msg in bad:
+                part.violation(f"{clause}:tie:{points}:{tol}", msg,
+                               {"kind": "pred", "points": [list(p) for p in points], "tol": tol})
+        bad, _deleted = check_list(points, tol)
+        part.count("cases")
+        for clause, msg in bad:
+            part.violation(f"{clause}:tie:{points}:{tol}", msg,
+                           {"kind": "list", "points": [list(p) for p in points], "tol": tol})
+    return part
+
+
 def wide_windows(ctx):
     """One window of very many vertices handed to the predicate directly (a window length past
     which the code switches method is a number written in its source: every harvested constant
@@ -450,6 +496,8 @@ def run(ctx):
         jobs.append(("dense", chunk))
     for case in wide_windows(ctx):
         jobs.append(("wide", [case]))
+    for chunk in core.split(exact_tie_cases(), 8):
+        jobs.append(("tie", chunk))
     part = core.fan_out(ctx, _dispatch, jobs)
     from .. import callforms              # pylint: disable=import-outside-toplevel
     part.merge(callforms.explore("C09"))
@@ -489,7 +537,7 @@ def run(ctx):
 
 def _dispatch(job):
     return {"lists": _lists_chunk, "collinear": _collinear_chunk, "pred": _pred_chunk,
-            "scaled": _scaled_chunk, "dense": _dense_chunk, "wide": _wide_chunk}[job[0]](job[1])
+            "scaled": _scaled_chunk, "dense": _dense_chunk, "wide": _wide_chunk, "tie": _tie_chunk}[job[0]](job[1])
 
 
 def replay(case):
